@@ -892,17 +892,12 @@ impl<'a> Ctx<'a> {
                             }
                         }
                         None => {
-                            let old = prev.iter().any(|p| p.idx != *c && p.pk == Some(key) && p.status != 2);
-                            if old && gone.len() == 1 {
-                                self.known.push((
-                                    "addr-lost-on-reconnection".to_string(),
-                                    format!("step {} ({}): key {} authenticated on connection {} as a reconnection (old entry {} removed) and address_to_peers has NO entry for the key afterwards", k, act.label(), key, c, gone[0]),
-                                ));
-                                self.tags.insert("addr-lost");
-                            } else {
-                                self.failures.push(format!("step {} ({}): key {} authenticated on {} but address_to_peers has no entry for it", k, act.label(), key, c));
-                            }
+                            // (before fix f517868 a reconnection merge lost the key here)
+                            self.failures.push(format!("step {} ({}): key {} authenticated on {} but address_to_peers has no entry for it (entries removed in this step: {:?})", k, act.label(), key, c, gone));
                         }
+                    }
+                    if gone.len() == 1 {
+                        self.tags.insert("reconnection-merge");
                     }
                 }
                 _ => {
@@ -1165,7 +1160,7 @@ fn scripted() -> Vec<(&'static str, Vec<Act>)> {
         "replay",
         vec![Act::New(2), genuine(2, HONEST), Act::Replay { c: 2, nth: 0 }, Act::New(3), Act::Replay { c: 3, nth: 0 }],
     ));
-    // reconnection of the same key: address_to_peers loses the key
+    // reconnection of the same key: the stale entry is merged, the key maps to the new connection
     v.push((
         "reconnection",
         vec![
